@@ -51,7 +51,13 @@ if __name__ == "__main__":
             if rng.random() < 0.15 and j == ncl - 1:
                 pats.append("else")
             prio = f"prio {rng.randint(1, 3)} " if greedy and rng.random() < 0.6 else ""
-            body = rng.choice([f"{hooks[j]}();", f'{hooks[j]}(); "k";', "", f'"m"; {hooks[j]}();'])
+            if greedy:
+                # a clause body of nothing but hook calls is scheduled on the way INTO the clause's
+                # finish state, which in a greedy case may still continue (known finding, fixed
+                # corpus below): greedy clauses are marked with yield codes, or hooks next to a match
+                body = rng.choice([f"yield Y{j};", f"yield Y{j};", f'{hooks[j]}(); "k";', "", f'"m"; {hooks[j]}();'])
+            else:
+                body = rng.choice([f"{hooks[j]}();", f'{hooks[j]}(); "k";', "", f'"m"; {hooks[j]}();'])
             lines.append(f"    {prio}{', '.join(pats)} -> {{ {body} }}")
         if rng.random() < 0.4 and not any("else" in l for l in lines):
             lines.append(f"    else -> {{ {hooks[ncl]}(); {rng.choice(['', chr(34) + 'e' + chr(34) + ';'])} }}")
@@ -64,6 +70,14 @@ if __name__ == "__main__":
         else:
             body = "loop {\n  " + case + '\n  case { "!" -> { break; } " " -> { } }\n  }'
         src = "".join(f"hook {h};\n" for h in hooks) + "hook hz;\nparser {\n  " + body + "\n}\n"
-        progs.append({"name": f"case-{i}", "src": src, "args": ["-feof-support"], "feats": {}, "also_O3": i % 3 == 0})
+        args = ["-feof-support"]
+        if "yield " in src:
+            src = "yieldcode " + ", ".join(f"Y{j}" for j in range(ncl)) + ";\n" + src
+            args = ["-feof-support", "-fyield-support"]
+        progs.append({"name": f"case-{i}", "src": src, "args": args, "feats": {}, "also_O3": i % 3 == 0})
+    progs.append({"name": "known-greedy-prefix-hook", "args": ["-feof-support"], "feats": {}, "also_O3": False,
+                  "known_key": "greedy-prefix-clause-hook-runs-early",
+                  "known_what": "in a greedy case a clause body of nothing but hook calls runs as soon as its pattern is complete, although a longer pattern of another clause goes on to match (both clauses' hooks run on 'abc')",
+                  "src": 'hook h0;\nhook h1;\nparser {\n  greedy case {\n    prio 1 "b", "a" -> { h0(); }\n    prio 1 "abc" -> { h1(); }\n  }\n  ";";\n}\n'})
     refcheck.run("C08", THEOREMS, "NmfuProps.C01", progs,
                  "generated case statements (1-4 clauses x 1-3 patterns; literals, casei, regexes, concatenations; else; greedy with priorities; three surrounding shapes) with marker hooks per clause; distinct accepted programs with at least 3 states")
